@@ -266,7 +266,7 @@ var (
 		"lemonchiffon", "lightblue", "lightcoral", "lightcyan",
 		"lightgoldenrodyellow", "lightgray", "lightgrey", "lightgreen",
 		"lightpink", "lightsalmon", "lightseagreen", "lightskyblue",
-		"lightslategray", "lightslategrey", "lightsteeelblue", "lightyellow",
+		"lightslategray", "lightslategrey", "lightsteelblue", "lightyellow",
 		"lime", "limegreen", "linen", "magenta", "maroon", "mediumaquamarine",
 		"mediumblue", "mediumorchid", "mediumpurple", "mediumseagreen",
 		"mediumslateblue", "mediumspringgreen", "mediumturquoise",
